@@ -435,7 +435,9 @@ class FunctionTranslator:
         for n in ast.walk(node):
             if isinstance(n, ast.Call):
                 d = dotted(n.func) if isinstance(n.func, (ast.Attribute, ast.Name)) else None
+                # x.item() (no arguments): the Python number held by a one-element tensor, read only for the text
                 ok = (isinstance(n.func, ast.Attribute) and n.func.attr == "format") or \
+                     (isinstance(n.func, ast.Attribute) and n.func.attr == "item" and not n.args and not n.keywords) or \
                      (d is not None and d[-1] in ("sorted", "str", "repr", "format", "len", "type"))
                 if not ok:
                     return False
@@ -646,16 +648,39 @@ def find_function(tree, qual):
 def slice_statements(fn, first, last):
     """the maximal run of top-level statements of fn from the one matching `first` to the one matching `last`
     (substring match on the unparsed first line); used to translate a block of a long function"""
-    idx = [None, None]
-    for i, s in enumerate(fn.body):
-        head = ast.unparse(s).splitlines()[0]
-        if idx[0] is None and first in head:
-            idx[0] = i
-        if last in head:
-            idx[1] = i
-    if idx[0] is None or idx[1] is None or idx[1] < idx[0]:
+    def in_list(stmts):
+        idx = [None, None]
+        for i, s in enumerate(stmts):
+            head = ast.unparse(s).splitlines()[0]
+            if idx[0] is None and first in head:
+                idx[0] = i
+            if last in head:
+                idx[1] = i
+        if idx[0] is None or idx[1] is None or idx[1] < idx[0]:
+            return None
+        return stmts[idx[0]:idx[1] + 1]
+
+    found = in_list(fn.body)
+    if found is not None:
+        return found
+    # markers of a NESTED block (the body of a loop / branch of a long function): the statement lists of compound
+    # statements are searched depth first, in source order; the first list that contains both markers wins.
+    # A top-level match keeps priority, so units that mark top-level statements are translated as before.
+
+    def nested(stmts):
+        for s in stmts:
+            subs = [getattr(s, a) for a in ("body", "orelse", "finalbody") if isinstance(getattr(s, a, None), list)]
+            subs += [h.body for h in getattr(s, "handlers", [])]
+            for sub in subs:
+                if not sub or not isinstance(sub[0], ast.stmt):
+                    continue
+                hit = in_list(sub)
+                if hit is None:
+                    hit = nested(sub)
+                if hit is not None:
+                    return hit
         return None
-    return fn.body[idx[0]:idx[1] + 1]
+    return nested(fn.body)
 
 
 HEADER = """(* GENERATED by harness/py2coq/translate.py from {src} - do not edit.
